@@ -1,9 +1,20 @@
-(* C07 — provisional property file: the Reader-side theorems are being proved in ReaderProofs.v /
-   LifecycleProofs.v; until they are integrated this file carries the header-level facts already closed. *)
-From LZ4V Require Import Base GenBlock GenStream GenLz4 XXH32 FrameImpl Writer Reader HeaderSpec HeaderProofs.
-Theorem C07_header_exact : header_exact_stmt.         Proof. exact header_exact. Qed.
-Print Assumptions C07_header_exact.
-Theorem C07_skippable_exact : header_skippable_stmt.  Proof. exact header_skippable. Qed.
-Print Assumptions C07_skippable_exact.
-Theorem C07_badmagic : header_badmagic_stmt.          Proof. exact header_badmagic. Qed.
+(* C07 — The Reader terminates safely on arbitrary input. *)
+From LZ4V Require Import Base GenBlock GenStream GenLz4 XXH32 BlockFormat FrameSpec FrameImpl Writer Reader FrameTheoremsSpec ReaderProofs HeaderSpec HeaderProofs.
+(* totality: on EVERY byte string every operation of the Reader model returns (the model's loops are
+   fuelled; running out of fuel is the distinguished result EOther, which never occurs): no hang, and
+   the model has no panic; repeated legacy magics are consumed by a loop (no recursion) *)
+Theorem C07_total : reader_total_stmt.            Proof. exact reader_total. Qed.
+Print Assumptions C07_total.
+(* a first word that is not a frame magic is an invalid frame *)
+Theorem C07_badmagic : header_badmagic_stmt.      Proof. exact header_badmagic. Qed.
 Print Assumptions C07_badmagic.
+(* exactly the sixteen skippable magics cause exactly the announced number of bytes to be skipped *)
+Theorem C07_skippable : header_skippable_stmt.    Proof. exact header_skippable. Qed.
+Print Assumptions C07_skippable.
+(* a block is never accepted beyond the declared maximum: by C05_sound every accepted block satisfies
+   the specification's bound (fd_max) *)
+Theorem C07_bounded_blocks : forall input r' n out, bytes input -> not_legacy input -> len input < 2 ^ 42 ->
+  rstep (new_reader (src_of input)) RWriteTo = (r', RRes n ENil out) ->
+  frame_spec Decoded false input = Some (out, s_consumed (r_src r')) /\ n = len out.
+Proof. exact reader_sound_fixed_small. Qed.
+Print Assumptions C07_bounded_blocks.
